@@ -12,7 +12,7 @@ NOTE = ('trusted: z3; go/ssa; the gosym encoder (validated each run by replaying
 CHECKS = {
  'C01': ('model_checking', 'For every byte string of length <= N (quick 7, thorough 10) and Buffer nil / fresh / used-with-arbitrary-contents, Valid equals the RFC 8259 reference verdict; all 256^n inputs are covered by the solver-checked partition of path classes, none sampled. Also long concrete documents (35-65 bytes) with a window of one (thorough: two) free bytes at every offset.', '6.1'),
  'C02': ('model_checking', 'For every byte string of length <= N, SkipValue succeeds exactly when the reference one-pass RFC 8259 reader does and returns the same end offset (every value followed by every next byte, every truncation). Also long concrete documents (35-65 bytes) with a window of one (thorough: two) free bytes at every offset.', '6.2'),
- 'C04': ('model_checking', 'Per-tier solver obligations over the SSA of internal/fp: (T1) the literal scanner readFloat against the RFC 8259 number grammar and the mantissa/exponent/truncation decomposition on all strings <= N and long-digit templates; (T2) atof64exact for every accepted exponent and every mantissa in an exact-rational model of IEEE arithmetic; (T3) Eisel-Lemire: for every one of the 696 table rows and every 64-bit mantissa, a result returned with ok is the correctly rounded binary64 (linear integer arithmetic, R-ROUND). (T4) the glue of ParseJSONFloatPrefix (order of tiers, !trunc guard, truncated-mantissa re-check, error plumbing) against the tiers\' contracts on literal templates. (T5) units of the multi-precision fallback: leftShift and rightShift exactness on short operands, decimal.set leaves a decimal denoting the literal (also across its 800-digit buffer), RoundedInteger is nearest-even on short operands, and floatBits is run for real over an abstract exact decimal whose Shift/RoundedInteger follow those contracts (subnormal, overflow and halfway templates). NOT established: the unit contracts for operands longer than the stated bounds, truncation beyond 800 digits (stated in evidence.outside). Also: the exponent accumulation of the scanner and of decimal.set for every exponent digit string of 3-6 free digits behind concrete mantissas (exact, or capped on the same side of the consumer\'s range); the scanner and decimal.set on literals of 100 008 bytes whose exponent cancels their digit count (a reported exponent beyond the fast tiers\' table must mean a value beyond it: saturated-exponent contract), and (T5f) for every binade and every even mantissa the exact halfway point fits the digit buffer whose length is read from the code (one integer inequality per binade).', '6.4'),
+ 'C04': ('model_checking', 'Per-tier solver obligations over the SSA of internal/fp: (T1) the literal scanner readFloat against the RFC 8259 number grammar and the mantissa/exponent/truncation decomposition on all strings <= N and long-digit templates; (T2) atof64exact for every accepted exponent and every mantissa in an exact-rational model of IEEE arithmetic; (T3) Eisel-Lemire: for every one of the 696 table rows and every 64-bit mantissa, a result returned with ok is the correctly rounded binary64 (linear integer arithmetic, R-ROUND). (T4) the glue of ParseJSONFloatPrefix (order of tiers, !trunc guard, truncated-mantissa re-check, error plumbing) against the tiers\' contracts on literal templates. (T5) units of the multi-precision fallback: leftShift and rightShift exactness on short operands, decimal.set leaves a decimal denoting the literal (also across its 800-digit buffer), RoundedInteger is nearest-even on short operands, and floatBits is run for real over an abstract exact decimal whose Shift/RoundedInteger follow those contracts (subnormal, overflow and halfway templates). NOT established: the unit contracts for operands longer than the stated bounds, truncation beyond 800 digits (stated in evidence.outside). Also: the exponent accumulation of the scanner and of decimal.set for every exponent digit string of 3-6 free digits behind concrete mantissas (exact, or capped on the same side of the consumer\'s range); the scanner and decimal.set on literals of 100 008 bytes whose exponent cancels their digit count (a reported exponent beyond the fast tiers\' table must mean a value beyond it: saturated-exponent contract), and (T5f) for every binade and every mantissa the exact halfway point fits the digit buffer whose length is read from the code (one integer inequality per binade).', '6.4'),
  'C05': ('model_checking', 'All six integer readers on every byte string <= N and on digit templates (optional sign, up to 21 symbolic bytes, look-ahead byte): success iff integer literal in range (decimal-string comparison oracle), exact value (integer-arithmetic encoding with explicit wrap), offset after the last digit.', '6.5'),
  'C06': ('model_checking', 'ReadStringBytes / ReadString / UnescapeStringContent on every byte string <= N and on escape templates (all 65,536 code units, all 2^32 surrogate combinations, escapes next to arbitrary bytes) with arbitrary destination prefix and spare capacity: success, offset and every output byte equal the RFC 8259 reference decoder. Also 38-45 byte string tokens with a window of free bytes at every offset.', '6.6'),
  'C07': ('model_checking', 'HandleArrayValues / HandleObjectValues with a handler that nondeterministically returns 0 or the exact end per call: success iff well-formed container or null; on success call count, order, value start and raw key bytes match the reference member list and the offset is the container end.', '6.7'),
